@@ -29,6 +29,7 @@ import vlib
 from gen import serial as G
 from props import C02
 from props import C15print
+from props import C15setup
 
 NOT_ALIGNED_KIND = "reuse:not_aligned_lost"
 COUNTING = ["unique_only", "with_ambiguous", "unique_splicing_consistent", "unique_inconsistent", "all"]
@@ -36,6 +37,10 @@ NORMS = ["simple", "usable_reads"]
 UNASSIGNED = ("noninformative", "intergenic", "empty")
 INCONSISTENT = ("inconsistent", "inconsistent_non_intronic", "inconsistent_ambiguous")
 PENALTIES = [0.0, 0.1, 0.7, 1.5, 0.30000000000000004, 2.0000001, 0.5]
+# --read_group of a generated experiment, given to the saving run AND to the restart (None = not given: an experiment
+# of several files is then grouped by file name implicitly, set_data_dependent_options)
+READ_GROUP_OPTS = [None, None, "file_name", "tag:CB", "read_id:_"]
+TAG_GROUPS = ["cellA", "c\u00e9lB", "NA", "x y"]
 
 _B = {}
 
@@ -201,11 +206,50 @@ def gen_case(rng, B, cid):
             n_rec += len(reads)
             groups.append({"gene": g["gene"], "reads": reads})
         chroms.append({"name": nm, "groups": groups})
-    return {"id": cid, "chroms": chroms, "unmapped": [rng.choice([0, 0, 1, 3]) for _ in range(rng.choice([1, 2]))],
+    case = {"id": cid, "chroms": chroms, "unmapped": [rng.choice([0, 0, 1, 3]) for _ in range(rng.choice([1, 1, 2, 2, 3]))],
             "gene_strategy": rng.choice(COUNTING), "transcript_strategy": rng.choice(COUNTING),
             "norm": rng.choice(NORMS), "n_records": n_rec,
             # read-level printers (props/C15print.py): the Canonical column on for every second case (no rng draw)
-            "check_canonical": n_rec % 2 == 0}
+            "check_canonical": n_rec % 2 == 0,
+            "read_group": rng.choice(READ_GROUP_OPTS)}
+    # transcript model construction is ON for the experiments of several files (the technical-replicas check reads
+    # the file count) and for every third other one (no rng draw)
+    case["model_construction"] = len(case["unmapped"]) > 1 or n_rec % 3 == 0
+    set_groups(case)
+    return case
+
+
+def effective_read_group(case):
+    """`args.read_group` of the saving run after set_data_dependent_options (harness-side only to DRAW the groups the
+    stubbed collector hands out; the model computes its own, `effectiveReadGroup`)"""
+    if case.get("read_group") is None and len(case["unmapped"]) > 1:
+        return "file_name"
+    return case.get("read_group")
+
+
+def file_label(i):
+    return "f%d" % i            # FileNameGrouper: basename of the file without extension
+
+
+def set_groups(case):
+    """the read group of every record, as the grouper of the saving run's mode hands it out (no rng draw: by assignment id)"""
+    eff = effective_read_group(case)
+    nf = len(case["unmapped"])
+    for c in case["chroms"]:
+        for g in c["groups"]:
+            for r in g["reads"]:
+                if eff == "file_name":
+                    r["group"] = G.cps(file_label(r["id"] % nf))
+                elif eff is not None:
+                    r["group"] = G.cps(TAG_GROUPS[r["id"] % len(TAG_GROUPS)])
+                else:
+                    r["group"] = G.cps("NA")
+
+
+def groups_of_chrom(case, groups):
+    """`read_grouper.read_groups` after a chromosome: DefaultReadGrouper starts with {'NA'}, the others with the empty set"""
+    seen = {G.from_cps(r["group"]) for g in groups for r in g["reads"]}
+    return seen | {"NA"} if effective_read_group(case) is None else seen
 
 
 # ------------------------------------------------------------------------------------------------
@@ -262,17 +306,48 @@ def j_chroms(case):
     return [{"name": G.cps(c["name"]), "groups": c["groups"]} for c in case["chroms"]]
 
 
-def req_saving(case, B, high_memory):
+def cmd_rg(case):
+    return None if case.get("read_group") is None else G.cps(case["read_group"])
+
+
+def info_groups(files):
+    """the group list of a real `_info` file IN FILE ORDER (`list(all_read_groups)`: the order of a Python set is the
+    interpreter's; the model takes the list as a parameter); None if the file cannot be parsed"""
+    import io
+    m, _, _ = _mods()
+    try:
+        inf = io.BytesIO(bytes.fromhex(files["info"]))
+        m.S.read_int(inf)
+        m.S.read_int(inf)
+        return m.S.read_list(inf, m.S.read_string), inf.tell()
+    except Exception:
+        return None
+
+
+def all_groups(case):
+    s = set()
+    for c in case["chroms"]:
+        s |= groups_of_chrom(case, c["groups"])
+    return s
+
+
+def req_saving(case, B, high_memory, files=None):
     table, pos, derive = env_of(case, B)
+    order = info_groups(files)[0] if files is not None and info_groups(files) else None
+    want = all_groups(case)
+    if order is None or set(order) != want or len(order) != len(want):
+        order = sorted(want)
     return vlib.req("C15.saving_run", table=[G.cps(s) for s in table], derive=derive, cfg=cfg_of(case, B, pos, high_memory),
-                    read_groups=[G.cps("NA")], unmapped=case["unmapped"], chroms=j_chroms(case))
+                    read_groups=[G.cps(s) for s in order], unmapped=case["unmapped"], chroms=j_chroms(case),
+                    cmd_read_group=cmd_rg(case), other_replicas=False)
 
 
 def req_restart(case, B, files):
-    """`restartRun` on the REAL files: the number of unaligned reads comes from the `_info` bytes (fix cc73ffc)"""
+    """`restartRunS` on the REAL files: the number of unaligned reads (fix cc73ffc) and the run set-up come from the
+    `_info` bytes; the restart is given the saving run's --read_group option"""
     table, pos, derive = env_of(case, B)
     return vlib.req("C15.restart_run", table=[G.cps(s) for s in table], derive=derive, cfg=cfg_of(case, B, pos, False),
-                    names=[G.cps(c["name"]) for c in case["chroms"]], files=files)
+                    names=[G.cps(c["name"]) for c in case["chroms"]], files=files, cmd_read_group=cmd_rg(case))
 
 
 # ------------------------------------------------------------------------------------------------
@@ -305,7 +380,7 @@ class _Stubs:
             finally:
                 pr.output_file.close()
                 del pr
-            return {"NA"}, ST.EnumStats(), processed
+            return groups_of_chrom(case, by_chr[chr_id]), ST.EnumStats(), processed
 
         class FakeBam:
             def __init__(self, fname, *a, **kw):
@@ -333,8 +408,9 @@ class _Stubs:
         m.DP.collect_reads_in_parallel, m.DP.pysam = self.saved
 
 
-def _run_cli(cmd, home):
-    """the real entry points of isoquant.py, in this process (no logger set-up); returns None or the exception name"""
+def _run_cli(cmd, home, probe=None):
+    """the real entry points of isoquant.py, in this process (no logger set-up); returns None or the exception name.
+    `probe`: list that receives the set-up every experiment's second half started under (C15setup.SetupProbe)"""
     m, isoquant, _ = _mods()
     old_home = os.environ.get("HOME")
     os.environ["HOME"] = home
@@ -343,7 +419,12 @@ def _run_cli(cmd, home):
         args = isoquant.check_and_load_args(args, parser)
         isoquant.create_output_dirs(args)
         isoquant.set_additional_params(args)
-        isoquant.run_pipeline(args)
+        with C15setup.SetupProbe(m.DP) as sp:
+            try:
+                isoquant.run_pipeline(args)
+            finally:
+                if probe is not None:
+                    probe.extend(sp.seen)
         return None
     except SystemExit as ex:
         return "SystemExit(%s)" % ex.code
@@ -355,10 +436,13 @@ def _run_cli(cmd, home):
 
 
 def common_opts(case, B):
+    """the options BOTH runs are given (everything but the input option)"""
     return ["--threads", "1", "--reference", B["paths"]["ref"], "--data_type", "nanopore", "-p", "S", "--no_gzip",
-            "--genedb", B["db"], "--complete_genedb", "--no_model_construction",
+            "--genedb", B["db"], "--complete_genedb",
             "--gene_quantification", case["gene_strategy"], "--transcript_quantification", case["transcript_strategy"],
-            "--normalization_method", case["norm"]] + (["--check_canonical"] if case.get("check_canonical") else [])
+            "--normalization_method", case["norm"]] + (["--check_canonical"] if case.get("check_canonical") else []) + \
+        ([] if case.get("model_construction") else ["--no_model_construction"]) + \
+        (["--read_group", case["read_group"]] if case.get("read_group") is not None else [])
 
 
 def real_saving_run(case, B, root, high_memory):
@@ -372,20 +456,20 @@ def real_saving_run(case, B, root, high_memory):
         shutil.copy(B["paths"]["bam"] + ".bai", p + ".bai")
         bams.append(p)
     cmd = ["--output", out, "--bam"] + bams + common_opts(case, B) + ["--keep_tmp"] + (["--high_memory"] if high_memory else [])
+    probe = []
     with _Stubs(case, bams):
-        err = _run_cli(cmd, os.path.join(B["dir"], "home"))
-    return out, os.path.join(out, "S", "aux", "S.save"), err
+        err = _run_cli(cmd, os.path.join(B["dir"], "home"), probe)
+    return out, os.path.join(out, "S", "aux", "S.save"), err, probe
 
 
 def real_restart(case, B, root, prefix, tag="B"):
+    """the restart is given EXACTLY the options of the saving run, the input option aside (no hand-over of what
+    the saving run derived from its input files: that is what the saved files are for)"""
     out = os.path.join(root, tag)
     cmd = ["--output", out, "--read_assignments", prefix] + common_opts(case, B)
-    if len(case["unmapped"]) > 1:
-        # an experiment of several BAM files is grouped by file name implicitly (set_data_dependent_options); the
-        # restart is given the option the saving run ran with
-        cmd += ["--read_group", "file_name"]
-    err = _run_cli(cmd, os.path.join(B["dir"], "home"))
-    return out, err
+    probe = []
+    err = _run_cli(cmd, os.path.join(B["dir"], "home"), probe)
+    return out, err, probe
 
 
 def read_files(prefix, names):
@@ -396,18 +480,19 @@ def read_files(prefix, names):
             "chrs": [{"save": rd("%s_%s" % (prefix, nm)), "mm": rd("%s_multimappers_%s" % (prefix, nm))} for nm in names]}
 
 
-def outputs_of(outdir):
-    """{suffix: path} of the experiment folder of a run (`S` for a BAM run, `S0` for a restart)"""
-    for sub in ("S", "S0"):
+def outputs_of(outdir, subs=("S", "S0")):
+    """{suffix: path} of the experiment folder of a run (`S` for a BAM run, `S0` for a restart, `S<i>` for the i-th
+    prefix of a restart from several prefixes)"""
+    for sub in subs:
         d = os.path.join(outdir, sub)
         if os.path.isdir(d):
             return {fn[len(sub) + 1:]: os.path.join(d, fn) for fn in sorted(os.listdir(d)) if os.path.isfile(os.path.join(d, fn))}
     return {}
 
 
-def observed(outdir, pos):
+def observed(outdir, pos, subs=("S", "S0")):
     """the outputs `downstream` models, parsed from the files of a real run"""
-    fs = outputs_of(outdir)
+    fs = outputs_of(outdir, subs)
     res = {}
     for lvl in ("gene", "transcript"):
         rows, stats = C02.parse_counts_file(fs["%s_counts.tsv" % lvl])
@@ -456,6 +541,29 @@ def predicted(case, mo):
     return res
 
 
+def grouped_tables(outdir, subs=("S", "S0")):
+    """does the experiment folder of a real run hold grouped tables?"""
+    return any("_grouped_" in k for k in outputs_of(outdir, subs))
+
+
+def compare_setup(model, probe, grouped, index=0):
+    """None, or how the set-up of a real run (`probe`: what C15setup.SetupProbe recorded, one entry per experiment;
+    `grouped`: grouped tables were written) differs from the model's `Setup`"""
+    if model is None:
+        return "the model's answer carries no set-up"
+    if not probe or len(probe) <= index:
+        return "the real run never reached process_assigned_reads of experiment %d" % index
+    real = probe[index]
+    mrg = None if model["read_group"] is None else G.from_cps(model["read_group"])
+    if (mrg or None) != (real["read_group"] or None):
+        return "args.read_group: model %r, real run %r" % (mrg, real["read_group"])
+    if model["use_technical_replicas"] != real["use_technical_replicas"]:
+        return "args.use_technical_replicas: model %s, real run %s" % (model["use_technical_replicas"], real["use_technical_replicas"])
+    if model["grouped_tables"] != grouped:
+        return "grouped tables written: model %s, real run %s" % (model["grouped_tables"], grouped)
+    return None
+
+
 def compare(case, mo, obs):
     if isinstance(mo, dict) and "driver_error" in mo:
         return "driver error: %s" % str(mo)[:200]
@@ -476,6 +584,141 @@ def compare(case, mo, obs):
 
 
 # ------------------------------------------------------------------------------------------------
+# several prefixes: `--read_assignments P0 P1`, one experiment per prefix (Model/Reuse.lean `restartAllS`)
+
+def gen_pair(rng, B, cid):
+    """two experiments saved by two BAM runs with the SAME options and no --read_group - one of several files (grouped by
+    file name implicitly), one of a single file (not grouped) - in either order"""
+    a, b = gen_case(rng, B, "%sa" % cid), gen_case(rng, B, "%sb" % cid)
+    for k in ("gene_strategy", "transcript_strategy", "norm", "check_canonical"):
+        b[k] = a[k]
+    several = [rng.choice([0, 1, 3]) for _ in range(rng.choice([2, 3]))]
+    single = [rng.choice([0, 2])]
+    a["unmapped"], b["unmapped"] = (several, single) if rng.random() < 0.6 else (single, several)
+    for c in (a, b):
+        c["read_group"] = None
+        c["model_construction"] = True
+        set_groups(c)
+    return [a, b]
+
+
+def run_pair(pair, B, high_memory=False):
+    """both saving runs, then ONE real restart from both prefixes -> dict"""
+    root = os.path.join(B["dir"], "pair_%s" % pair[0]["id"])
+    shutil.rmtree(root, ignore_errors=True)
+    res = {"root": root, "saving": [], "errR": None, "outR": None, "setupR": []}
+    for i, case in enumerate(pair):
+        sub = os.path.join(root, "e%d" % i)
+        os.makedirs(sub)
+        out, prefix, err, probe = real_saving_run(case, B, sub, high_memory)
+        files = read_files(prefix, [c["name"] for c in case["chroms"]]) if err is None else None
+        res["saving"].append({"out": out, "prefix": prefix, "err": err, "setup": probe, "files": files})
+    if all(x["err"] is None for x in res["saving"]):
+        out = os.path.join(root, "R")
+        cmd = ["--output", out, "--read_assignments"] + [x["prefix"] for x in res["saving"]] + common_opts(pair[0], B)
+        probe = []
+        res["errR"] = _run_cli(cmd, os.path.join(B["dir"], "home"), probe)
+        res["outR"], res["setupR"] = out, probe
+    return res
+
+
+def req_restart_all(pair, B, files_list):
+    names = [c["name"] for c in pair[0]["chroms"]]
+    # one interning table for both experiments: the strings of both
+    rest = set()
+    for case in pair:
+        rest |= set(strings_of(case))
+    for nm in names:
+        rest |= set(B["genes_of"].get(nm, [])) | set(B["tr_chr"].get(nm, []))
+    rest -= set(names)
+    table = names + sorted(rest)
+    pos = {s: i for i, s in enumerate(table)}
+    derive, seen = [], set()
+    for case in pair:
+        for c in case["chroms"]:
+            for g in c["groups"]:
+                key = tuple(tuple(x) for x in g["gene"]["genes"])
+                if key in seen:
+                    continue
+                seen.add(key)
+                derive.append([g["gene"]["genes"], [[pos[t], n] for x in g["gene"]["genes"]
+                                                    for t, n in B["tx_of"].get(G.from_cps(x), [])]])
+    return pos, vlib.req("C15.restart_all", table=[G.cps(s) for s in table], derive=derive,
+                         cfg=cfg_of(pair[0], B, pos, False), cmd_read_group=None,
+                         experiments=[{"names": [G.cps(n) for n in names], "files": f} for f in files_list])
+
+
+def pairs_correspondence(ctx, B):
+    rng = ctx.rng
+    n = 6 if ctx.tier == "quick" else 40
+    runs, reqs = [], []
+    for i in range(n):
+        pair = gen_pair(rng, B, "p%d" % i)
+        run = run_pair(pair, B)
+        run["pair"] = pair
+        if run["outR"] and run["errR"] is None:
+            pos, rq = req_restart_all(pair, B, [x["files"] for x in run["saving"]])
+            run["obs"] = [observed(run["outR"], pos, ("S%d" % k,)) for k in range(2)]
+            run["grouped"] = [grouped_tables(run["outR"], ("S%d" % k,)) for k in range(2)]
+            reqs.append(rq)
+            run["asked"] = True
+        elif run["outR"]:
+            pos, rq = req_restart_all(pair, B, [x["files"] for x in run["saving"]])
+            reqs.append(rq)
+            run["asked"] = True
+        shutil.rmtree(run["root"], ignore_errors=True)
+        runs.append(run)
+    outs = iter(ctx.driver.run(reqs))
+    for run in runs:
+        pair = run["pair"]
+        small = {"pair": pair[0]["id"], "files": [len(c["unmapped"]) for c in pair]}
+        ctx.count("op:restart_all")
+        ctx.evaluations += 1
+        if not run.get("asked"):
+            ctx.count("reuse:pair_not_saved")
+            continue
+        mo = next(outs)
+        ctx.traces_validated += 1
+        if run["errR"] is not None:
+            if not all(vlib.is_err(x) for x in mo):
+                ctx.disagree("restart_all", small, "model ran", {"error": run["errR"]})
+            continue
+        bad = None
+        for k, case in enumerate(pair):
+            if vlib.is_err(mo[k]) or "driver_error" in mo[k]:
+                bad = "experiment %d: model raises, real restart ran" % k
+                break
+            bad = compare(case, mo[k], run["obs"][k]) or compare_setup(mo[k].get("setup"), run["setupR"], run["grouped"][k], k)
+            if bad:
+                bad = "experiment %d: %s" % (k, bad)
+                break
+        if bad:
+            ctx.disagree("restart_all", small, {"why": bad}, None)
+        else:
+            ctx.mark_nontrivial(["restart_all", pair[0]["id"]])
+
+
+def judge_pair(pair, B):
+    """the clause for a restart from two prefixes, on the real code: experiment i of the restart = the run that saved prefix i"""
+    run = run_pair(pair, B)
+    try:
+        if any(x["err"] is not None for x in run["saving"]):
+            return []
+        if run["errR"] is not None:
+            return [("reuse:restart_fails", "--read_assignments P0 P1 raised: %s" % run["errR"])]
+        fails = []
+        for k in range(2):
+            d = diff_runs(run["saving"][k]["out"], run["outR"], ("S%d" % k,))
+            if d:
+                fails.append(("reuse:prefixes_differ", "experiment S%d of the restart vs the run that saved its prefix (%d file(s) of "
+                              "input): %s" % (k, len(pair[k]["unmapped"]), "; ".join("%s: `%s` vs `%s`" % x for x in d[:3]))))
+                break
+        return fails
+    finally:
+        shutil.rmtree(run["root"], ignore_errors=True)
+
+
+# ------------------------------------------------------------------------------------------------
 # correspondence
 
 def run_case(ctx, case, B, high_memory, keep=None, old_format=False):
@@ -483,20 +726,24 @@ def run_case(ctx, case, B, high_memory, keep=None, old_format=False):
     root = os.path.join(B["dir"], "case_%s_%d" % (case["id"], int(high_memory)))
     shutil.rmtree(root, ignore_errors=True)
     os.makedirs(root)
-    outA, prefix, errA = real_saving_run(case, B, root, high_memory)
-    res = {"root": root, "outA": outA, "errA": errA, "prefix": prefix, "files": None, "outB": None, "errB": None}
+    outA, prefix, errA, setupA = real_saving_run(case, B, root, high_memory)
+    res = {"root": root, "outA": outA, "errA": errA, "prefix": prefix, "files": None, "outB": None, "errB": None,
+           "setupA": setupA}
     if errA is None:
         names = [c["name"] for c in case["chroms"]]
         res["files"] = read_files(prefix, names)
-        res["outB"], res["errB"] = real_restart(case, B, root, prefix)
+        res["outB"], res["errB"], res["setupB"] = real_restart(case, B, root, prefix)
         if old_format:
-            # a save folder of the format before fix cc73ffc: `_info` without its last field (4 bytes)
+            # a save folder of an older format: `_info` cut after the read groups (before fix cc73ffc; old_format = 1) or
+            # after the number of unaligned reads (before the run set-up was stored; old_format = 2)
             with open(prefix + "_info", "rb") as f:
                 data = f.read()
+            head = info_groups(res["files"])
+            cut = len(data) if head is None else min(len(data), head[1] + (0 if old_format == 1 else 4))
             with open(prefix + "_info", "wb") as f:
-                f.write(data[:-4])
+                f.write(data[:cut])
             res["files_old"] = read_files(prefix, names)
-            res["outO"], res["errO"] = real_restart(case, B, root, prefix, tag="O")
+            res["outO"], res["errO"], res["setupO"] = real_restart(case, B, root, prefix, tag="O")
             with open(prefix + "_info", "wb") as f:
                 f.write(data)
     return res
@@ -518,7 +765,7 @@ def correspondence(ctx):
     for case in cases:
         table, pos, derive = env_of(case, B)
         for hm in (False, True):
-            run = run_case(ctx, case, B, hm, old_format=(case["id"] % 4 == 0 and not hm))
+            run = run_case(ctx, case, B, hm, old_format=(0 if hm or case["id"] % 3 else 1 + (case["id"] // 3) % 2))
             run.update(case=case, hm=hm, pos=pos)
             if run["errA"] is None:
                 run["obsA"] = observed(run["outA"], pos)
@@ -528,12 +775,15 @@ def correspondence(ctx):
                     run["printedB"] = C15print.printed_files(run["outB"], outputs_of)
                 if run.get("files_old") is not None and run["errO"] is None:
                     run["obsO"] = observed(run["outO"], pos)
+            for t in "ABO":
+                if run.get("out" + t):
+                    run["grouped" + t] = grouped_tables(run["out" + t])
             shutil.rmtree(run["root"], ignore_errors=True)
             runs.append(run)
     # phase 2: the model, one driver batch
     reqs = []
     for run in runs:
-        reqs.append(req_saving(run["case"], B, run["hm"]))
+        reqs.append(req_saving(run["case"], B, run["hm"], run["files"]))
         if run["files"] is not None:
             reqs.append(req_restart(run["case"], B, run["files"]))
             reqs.append(C15print.req_print_saved(run["case"], B, env_of(run["case"], B), run["files"],
@@ -552,7 +802,8 @@ def correspondence(ctx):
         ctx.evaluations += 1
         ctx.traces_validated += 1
         small = {"case": case["id"], "high_memory": hm, "n_records": case["n_records"]}
-        big = dict(small, chroms=case["chroms"], unmapped=case["unmapped"])
+        big = dict(small, chroms=case["chroms"], unmapped=case["unmapped"], read_group=case.get("read_group"),
+                   model_construction=bool(case.get("model_construction")))
         if run["errA"] is not None:
             if not vlib.is_err(mo):
                 ctx.disagree("saving_run", big, "model ran", {"error": run["errA"]})
@@ -574,6 +825,15 @@ def correspondence(ctx):
         why = compare(case, mo["run"], run["obsA"])
         if why:
             ctx.disagree("saving_run", big, {"why": why}, None)
+        # (2s) the set-up the second half of the real run started under == the model's `savingSetup`
+        ctx.count("op:setup:saving:%s:%d_files" % (case.get("read_group"), len(case["unmapped"])))
+        ctx.evaluations += 1
+        why = compare_setup(mo["run"].get("setup"), run.get("setupA"), run.get("groupedA"))
+        if why:
+            ctx.disagree("setup", dict(small, read_group=case.get("read_group"), files=len(case["unmapped"]), run="saving"),
+                         mo["run"].get("setup"), {"why": why})
+        elif mo["run"]["setup"]["use_technical_replicas"] or mo["run"]["setup"]["grouped_tables"]:
+            ctx.mark_nontrivial(["setup_saving", case["id"], hm])
         # (2p) read_assignments.tsv / corrected_reads.bed of the saving run and of the restart, line by line, against
         # `processSavedP` on the REAL saved files (`restart_prints_second_half`: both runs print from the same files)
         if mp is not None:
@@ -608,7 +868,8 @@ def correspondence(ctx):
             elif vlib.is_err(mold) or (isinstance(mold, dict) and "driver_error" in mold):
                 ctx.disagree("restart_old_format", big, mold, "real restart succeeded")
             else:
-                why = compare(case, mold, run["obsO"])
+                why = compare(case, mold, run["obsO"]) or \
+                    compare_setup(mold.get("setup"), run.get("setupO"), run.get("groupedO"))
                 if why:
                     ctx.disagree("restart_old_format", big, {"why": why}, None)
                 elif sum(case["unmapped"]) > 0:
@@ -624,6 +885,14 @@ def correspondence(ctx):
             ctx.disagree("process_saved", big, mr, "real restart succeeded")
         else:
             why = compare(case, mr, run["obsB"])
+            ws = compare_setup(mr.get("setup"), run.get("setupB"), run.get("groupedB"))
+            ctx.count("op:setup:restart")
+            ctx.evaluations += 1
+            if ws:
+                ctx.disagree("setup", dict(small, read_group=case.get("read_group"), files=len(case["unmapped"]), run="restart"),
+                             mr.get("setup"), {"why": ws})
+            elif mr["setup"]["use_technical_replicas"] or mr["setup"]["grouped_tables"]:
+                ctx.mark_nontrivial(["setup_restart", case["id"], hm])
             if why:
                 ctx.disagree("process_saved", big, {"why": why}, None)
             else:
@@ -635,6 +904,8 @@ def correspondence(ctx):
                     ctx.sample({"op": "process_saved", "case": case["id"], "high_memory": hm,
                                 "records": case["n_records"], "dropped_by_verdicts": dropped,
                                 "info": mr["info"], "transcript": mr["out"]["transcript"]})
+    # several prefixes on one command line
+    pairs_correspondence(ctx, B)
 
 
 # ------------------------------------------------------------------------------------------------
@@ -645,9 +916,9 @@ def _lines(path):
         return sorted(l for l in f if not l.startswith("#"))
 
 
-def diff_runs(outA, outB):
+def diff_runs(outA, outB, subsB=("S", "S0")):
     """[(file suffix, first differing line of A, of B)] over the outputs both runs wrote"""
-    fa, fb = outputs_of(outA), outputs_of(outB)
+    fa, fb = outputs_of(outA), outputs_of(outB, subsB)
     diffs = []
     for k in sorted(set(fa) | set(fb)):
         if k not in fa or k not in fb:
@@ -681,7 +952,7 @@ def judge(case, B, high_memory):
         fails += C15print.lines_check(pa["tsv"], pa["bed"])
         # a second restart from the same files, and the files themselves untouched
         before = read_files(run["prefix"], [c["name"] for c in case["chroms"]])
-        outC, errC = real_restart(case, B, run["root"], run["prefix"], tag="C")
+        outC, errC, _ = real_restart(case, B, run["root"], run["prefix"], tag="C")
         if errC is not None:
             fails.append(("reuse:restart_fails", "second restart raised: %s" % errC))
         elif diff_runs(run["outB"], outC):
@@ -751,6 +1022,10 @@ def witness_case(B):
     import random
     c = gen_case(random.Random(5), B, "w")
     c["unmapped"] = [2, 3]
+    # ... and of `restart_setup_lost_witness`: two files, no --read_group (grouping by file name is implicit)
+    c["read_group"] = None
+    c["model_construction"] = True
+    set_groups(c)
     return c
 
 
@@ -766,7 +1041,8 @@ def oracle(ctx, disagreements, broken):
                 and "chroms" in d["input"]:
             c = {"id": "d%s" % d["input"].get("case"), "chroms": d["input"]["chroms"],
                  "unmapped": d["input"].get("unmapped", [0]), "gene_strategy": "unique_only",
-                 "transcript_strategy": "unique_only", "norm": "simple", "n_records": 0}
+                 "transcript_strategy": "unique_only", "norm": "simple", "n_records": 0,
+                 "read_group": d["input"].get("read_group"), "model_construction": bool(d["input"].get("model_construction"))}
             if len(todo) < 6:
                 todo.append((c, bool(d["input"].get("high_memory"))))
     n = 14 if ctx.tier == "quick" else 100
@@ -788,6 +1064,13 @@ def oracle(ctx, disagreements, broken):
             ctx.fail(kind, {"case": small, "high_memory": hm}, detail)
             if len(ctx.failures) > 12:
                 break
+    # several prefixes: every experiment of the restart reproduces the run that saved ITS prefix
+    for i in range(4 if ctx.tier == "quick" else 30):
+        pair = gen_pair(rng, B, "q%d" % i)
+        ctx.count("oracle:reuse_pair")
+        for kind, detail in judge_pair(pair, B):
+            ctx.fail(kind, {"pair": pair}, detail)
+            break
     # both memory modes of the saving run save the same files and print the same outputs
     mm_cases = [c for c, _ in todo if str(c["id"]).startswith("d")][:6]
     mm_cases += [gen_case(rng, B, "m%d" % i) for i in range(8 if ctx.tier == "quick" else 40)]
@@ -806,6 +1089,9 @@ def replay(ctx, failure):
     if failure["kind"] == "reuse:memory_modes_differ":
         why = memory_modes(inp["case"], B)
         return {"reproduced": bool(why), "detail": why}
+    if "pair" in inp:
+        hit = [f for f in judge_pair(inp["pair"], B) if f[0] == failure["kind"]]
+        return {"reproduced": bool(hit), "detail": hit[0][1] if hit else None}
     fails = judge(inp["case"], B, bool(inp.get("high_memory")))
     hit = [f for f in fails if f[0] == failure["kind"]]
     return {"reproduced": bool(hit), "detail": hit[0][1] if hit else None}
